@@ -18,7 +18,7 @@ EXPLANATION = (
     'wait, join, sleep, future wait, spin lock) or a call on the exporter. C01.R3 (typestate on the per-slot consume '
     'callback): every path takes ownership of the slot exactly once (Swap/Reset), every return is the constant true, and '
     'the taken pointer is appended to the very container whose data()/size() are handed to the exporter\'s Export. '
-    'C01.R4 (dependence): the count handed to Consume originates only from size() of the same queue or from the batch bound.')
+    'the container is re-created or cleared between an Export and the next Consume. The queue rules C11.R1/R2 are evaluated as prerequisites. C01.R4 (dependence): the count handed to Consume originates only from size() of the same queue or from the batch bound.')
 NOT_DECIDED = ('that no element is duplicated or lost under concurrent interleavings of the atomic steps, per-producer order, '
                'and the legitimacy of every drop (these are schedule-quantified; C11 decides the structural part of the queue).')
 
@@ -232,6 +232,26 @@ def rule_r3_r4(ck, prog, cg, roles):
                                 exported.add(o.get('id'))
                 if pushed and exported and pushed & exported:
                     ck.holds('C01.R3', lf, 'taken-pointer-exported', None, 'the taken element is appended to the container handed to Export')
+                    # the container must be fresh in every iteration: between one Export and the next Consume it is
+                    # re-constructed or cleared, otherwise the previous batch is exported again
+                    vid = list(pushed & exported)[0]
+                    fresh = [p for p in g.points if p.ctx is cp.ctx and p.n is not None and (
+                        (p.n['k'] == 'declstmt' and any(d['id'] == vid for d in p.n['decls'])) or
+                        (p.n['k'] == 'call' and p.n.get('obj') is not None and cp.f.nodes[p.n['obj']].get('id') == vid and
+                         strip_targs(p.n.get('c', '')).rsplit('::', 1)[-1] in ('clear', 'operator=', 'swap')))]
+                    stale = None
+                    for ep in exports:
+                        if ep.ctx is not cp.ctx:
+                            continue
+                        r = g.reachable_from([q for (q, _l) in ep.succ], avoid=fresh)
+                        if cp.id in r:
+                            stale = ep
+                    if stale is not None:
+                        ck.violation('C01.R3', cp.f, 'batch-container-fresh', cp.n,
+                                     'the container handed to Export is filled again without having been re-created or cleared since the previous Export: the earlier batch is delivered a second time',
+                                     path=g.describe_path(g.path(stale, cp, avoid=fresh) or []))
+                    else:
+                        ck.holds('C01.R3', cp.f, 'batch-container-fresh', cp.n, 'batch container re-created/cleared between an Export and the next Consume')
                 else:
                     ck.violation('C01.R3', lf, 'taken-pointer-exported', None,
                                  'the element taken from the slot does not flow into the container whose data()/size() are handed to the exporter')
@@ -246,7 +266,7 @@ def _names_in(f, idx):
 def run(ck, prog):
     ck.doc('C01.R1', 'producer entry: at most one Add per path, no silent skip, Add behind the shutdown gate', 6)
     ck.doc('C01.R2', 'nothing reachable from the producer entry blocks or calls the exporter', 2)
-    ck.doc('C01.R3', 'per-slot consume callback: slot taken exactly once, returns true, taken pointer goes to the exported container', 6)
+    ck.doc('C01.R3', 'per-slot consume callback: slot taken exactly once, returns true, taken pointer goes to the exported container, container fresh per batch', 8)
     ck.doc('C01.R4', 'count handed to Consume derives from size() of the same queue / the batch bound', 2)
     cg = CallGraph(prog)
     cb = Roles(prog, 'canary::c01::BadBatch', cg=cg)
@@ -263,4 +283,16 @@ def run(ck, prog):
         rule_r1(ck, prog, roles, producer)
         rule_r2(ck, prog, cg, roles, producer)
         rule_r3_r4(ck, prog, cg, roles)
+    # prerequisites shared with C11: the structural rules of the queue the processors rely on
+    from . import c11
+    ck.doc('C11.R1', '(prerequisite, see C11) ownership typestate of CircularBuffer::Add / AtomicUniquePtr', 10)
+    ck.doc('C11.R2', '(prerequisite, see C11) queue guard agreement: fullness, capacity, slot index, tail advance, size', 7)
+    CB = 'sdk::common::CircularBuffer'
+    for f in c11._lvalue_add(prog, CB):
+        gq, rdq, full_rel = c11.rule_r1_add(ck, prog, f)
+        c11.rule_r2(ck, prog, CB, gq, rdq, full_rel, f)
+        break
+    c11.rule_r1_swapifnull(ck, prog)
+    c11.rule_r1_single_exchange(ck, prog)
+    c11.rule_r1_rvalue(ck, prog, CB)
     return {}
